@@ -509,7 +509,8 @@ func (s *storage) cleanupArchetypes(target Entity) {
 			table := &s.tables[tables.tables[i]]
 
 			for _, rel := range table.relationIDs {
-				if rel.target.id == target.id {
+				// Also detach targets that died in the same batch removal and were not cleaned up yet.
+				if rel.target.id == target.id || !s.entityPool.Alive(rel.target) {
 					newRelations = append(newRelations, relationID{component: rel.component, target: Entity{}})
 				}
 			}
